@@ -1,3 +1,5 @@
+import Std.Data.HashSet
+import Std.Data.HashMap
 import BigDec.Driver.C01
 import BigDec.Driver.C02
 import BigDec.Driver.C03
@@ -52,25 +54,55 @@ def splitArrow (fs : List String) : List String × String :=
   | (pre, _ :: post) => (pre, String.intercalate "\t" post)
   | (pre, []) => (pre, "")
 
-def evalLine (line : String) : String :=
+/-- evaluate one line: verdict, hash, and whether the line failed -/
+def evalLineV (line : String) : Verdict × UInt64 :=
   let v := match line.splitOn "\t" with
     | prop :: op :: rest =>
       let (args, impl) := splitArrow rest
       dispatch prop op args impl
     | _ => badInput "short line"
-  let h := fnv line
+  (v, fnv line)
+
+def renderLine (v : Verdict) (h : UInt64) (line : String) : String :=
   -- echo the input on any failure, and for a sparse sample of passing cases
   let echo := if !v.ok then "F\t" ++ line else if h % 2048 == 0 then "S\t" ++ line else ""
   s!"{v.render}\t{h}\t{echo}"
 
-partial def loop (hin : IO.FS.Stream) (hout : IO.FS.Stream) : IO Unit := do
-  let line ← hin.getLine
-  if line.isEmpty then return ()
-  let line := if line.endsWith "\n" then (line.dropEnd 1).toString else line
-  hout.putStrLn (evalLine line)
-  loop hin hout
+/-- aggregate state (thorough tier): passing lines are only counted -/
+structure Agg where
+  evaluations : Nat := 0
+  nontrivial : Nat := 0
+  drift : Nat := 0
+  seen : Std.HashSet UInt64 := {}
+  seenNontrivial : Nat := 0
+  tags : Std.HashMap String Nat := {}
 
-def main : IO Unit := do
+partial def loop (hin : IO.FS.Stream) (hout : IO.FS.Stream) (agg : Bool) (st : Agg) : IO Agg := do
+  let line ← hin.getLine
+  if line.isEmpty then return st
+  let line := if line.endsWith "\n" then (line.dropEnd 1).toString else line
+  let (v, h) := evalLineV line
+  if !agg then
+    hout.putStrLn (renderLine v h line)
+    loop hin hout agg st
+  else
+    let isNew := !st.seen.contains h
+    let st := { st with
+      evaluations := st.evaluations + 1,
+      drift := st.drift + (if v.drift then 1 else 0),
+      seen := if isNew then st.seen.insert h else st.seen,
+      seenNontrivial := st.seenNontrivial + (if isNew && !v.trivial then 1 else 0),
+      tags := st.tags.insert v.tag (st.tags.getD v.tag 0 + 1) }
+    -- failures, protocol errors and a sparse sample still go out line by line
+    if !v.ok || h % 65536 == 0 || v.note.startsWith "driver-bad-input" then
+      hout.putStrLn (renderLine v h line)
+    loop hin hout agg st
+
+def main (args : List String) : IO Unit := do
   let hin ← IO.getStdin
   let hout ← IO.getStdout
-  loop hin hout
+  let agg := args.contains "--agg"
+  let st ← loop hin hout agg {}
+  if agg then
+    let tagStr := String.intercalate ";" (st.tags.toList.map (fun (k, v) => s!"{k}={v}"))
+    hout.putStrLn s!"#SUMMARY\t{st.evaluations}\t{st.seen.size}\t{st.seenNontrivial}\t{st.drift}\t{tagStr}"
